@@ -5,9 +5,11 @@ namespace MpfVerif.TimerDevice
 /-- everything but "a running timer is not at its end value" -/
 structure Inv0 (s : T) : Prop where
   run_noresume : s.running = true → s.resume = none
-  resume_ge : ∀ r, s.resume = some r → s.now ≤ r
-  arm_ge : s.running = true → ∀ a, s.arm = some a → s.now ≤ a + s.iv
+  resume_ge : ∀ r, s.resume = some r → s.now ≤ r + s.slack
+  arm_ge : s.running = true → ∀ a, s.arm = some a → s.now ≤ a + s.iv + s.slack
   run_armed : s.running = true → ∃ a, s.arm = some a
+  /-- the system timer's schedule is absolute: its next run is due at creation time + (runs so far + 1) intervals -/
+  arm_abs : ∀ a, s.arm = some a → a = s.t0 + s.cnt * s.iv
 
 structure Inv (c : Cfg) (s : T) : Prop extends Inv0 s where
   run_notdone : s.running = true → done c s.ticks = false
@@ -31,7 +33,7 @@ theorem doComplete_inv (c : Cfg) (s : T) : Inv c (doComplete c s).1 := by
       · simp [doStop]
     · simp only [doComplete, hr, hd, if_true]
       constructor
-      · constructor <;> simp [doStop]
+      · constructor <;> simp [doStop] <;> omega
       · intro _; simpa using hd
   · simp only [doComplete, hr]
     exact doStop_inv c s
@@ -51,23 +53,30 @@ theorem doStart_inv (c : Cfg) (s : T) (i : Inv c s) : Inv c (doStart c s).1 := b
     · exact doComplete_inv c s
     · rename_i h
       constructor
-      · constructor <;> simp
+      · constructor <;> simp <;> omega
       · intro _; simpa using h
+
+/-- re-creating the system timer now (`_create_system_timer`) keeps the invariant, whatever else stays -/
+theorem rearm_inv0 (s : T) (k : Int) (iv : Nat) (i : Inv0 s) :
+    Inv0 { s with ticks := k, iv := iv, arm := some s.now, t0 := s.now, cnt := 0 } := by
+  constructor
+  · exact i.run_noresume
+  · exact i.resume_ge
+  · intro _ a h; simp at h; subst h; simp; omega
+  · intro _; exact ⟨s.now, rfl⟩
+  · intro a h; simp at h; subst h; simp
 
 theorem doJump_inv (c : Cfg) (s : T) (v : Int) (i : Inv0 s) : Inv c (doJump c s v).1 := by
   unfold doJump
   apply checkDone_inv
-  constructor
-  · exact i.run_noresume
-  · exact i.resume_ge
-  · intro _ a h; simp at h; subst h; simp
-  · intro _; exact ⟨s.now, rfl⟩
+  exact rearm_inv0 s (clip c v) s.iv i
 
 theorem step_inv (c : Cfg) (s : T) (op : Op) (r : T × List Obs) (i : Inv c s) (h : step c s op = some r) :
     Inv c r.1 := by
   cases op with
   | start => simp only [step] at h; injection h with h; subst h; exact doStart_inv c s i
   | stop => simp only [step] at h; injection h with h; subst h; exact doStop_inv c s
+  | removed => simp only [step] at h; injection h with h; subst h; exact doStop_inv c s
   | pause ms =>
     simp only [step] at h; injection h with h; subst h
     constructor
@@ -77,16 +86,17 @@ theorem step_inv (c : Cfg) (s : T) (op : Op) (r : T × List Obs) (i : Inv c s) (
         simp only at hr
         split at hr
         · exact i.resume_ge r hr
-        · injection hr with hr; subst hr; simp
+        · injection hr with hr; subst hr; simp; omega
+      · simp
       · simp
       · simp
     · simp
   | add v =>
     simp only [step] at h; injection h with h; subst h
-    exact checkDone_inv c _ ⟨i.run_noresume, i.resume_ge, i.arm_ge, i.run_armed⟩
+    exact checkDone_inv c _ ⟨i.run_noresume, i.resume_ge, i.arm_ge, i.run_armed, i.arm_abs⟩
   | sub v =>
     simp only [step] at h; injection h with h; subst h
-    exact checkDone_inv c _ ⟨i.run_noresume, i.resume_ge, i.arm_ge, i.run_armed⟩
+    exact checkDone_inv c _ ⟨i.run_noresume, i.resume_ge, i.arm_ge, i.run_armed, i.arm_abs⟩
   | jump v => simp only [step] at h; injection h with h; subst h; exact doJump_inv c s v i.toInv0
   | reset => simp only [step] at h; injection h with h; subst h; exact doJump_inv c s c.start i.toInv0
   | restart =>
@@ -99,22 +109,10 @@ theorem step_inv (c : Cfg) (s : T) (op : Op) (r : T × List Obs) (i : Inv c s) (
     · injection h with h; subst h; exact doStart_inv c _ ij
   | setIv k =>
     simp only [step] at h; injection h with h; subst h
-    constructor
-    · constructor
-      · exact i.run_noresume
-      · exact i.resume_ge
-      · intro _ a ha; simp at ha; subst ha; simp
-      · intro _; exact ⟨s.now, rfl⟩
-    · exact i.run_notdone
+    exact ⟨rearm_inv0 s s.ticks k i.toInv0, i.run_notdone⟩
   | chIv f =>
     simp only [step] at h; injection h with h; subst h
-    constructor
-    · constructor
-      · exact i.run_noresume
-      · exact i.resume_ge
-      · intro _ a ha; simp at ha; subst ha; simp
-      · intro _; exact ⟨s.now, rfl⟩
-    · exact i.run_notdone
+    exact ⟨rearm_inv0 s s.ticks (s.iv * f) i.toInv0, i.run_notdone⟩
   | to t =>
     simp only [step] at h
     split at h
@@ -137,8 +135,27 @@ theorem step_inv (c : Cfg) (s : T) (op : Op) (r : T × List Obs) (i : Inv c s) (
           have hrun' : s.running = true := hrun
           simp only [hrun', if_true]
           exact i.run_armed hrun'
+        · intro a ha
+          simp only at ha
+          split at ha
+          · exact i.arm_abs a ha
+          · split at ha
+            · split at ha
+              · cases ha
+              · rename_i a' hs' _; injection ha with ha; subst ha; exact i.arm_abs _ hs'
+            · cases ha
       · exact i.run_notdone
     · cases h
+  | stall d =>
+    simp only [step] at h; injection h with h; subst h
+    constructor
+    · constructor
+      · exact i.run_noresume
+      · intro r hr; have := i.resume_ge r hr; simp; omega
+      · intro hrun a ha; have := i.arm_ge hrun a ha; simp; omega
+      · exact i.run_armed
+      · exact i.arm_abs
+    · exact i.run_notdone
   | clock =>
     simp only [step] at h
     cases ha : s.arm with
@@ -157,9 +174,13 @@ theorem step_inv (c : Cfg) (s : T) (op : Op) (r : T × List Obs) (i : Inv c s) (
             · exact i.resume_ge
             · intro _ a' ha'; simp at ha'; subst ha'
               have := i.arm_ge hc.1 a ha
-              show s.now ≤ a + s.iv + s.iv
+              show s.now ≤ a + s.iv + s.iv + s.slack
               omega
             · intro _; exact ⟨_, rfl⟩
+            · intro a' ha'; simp at ha'; subst ha'
+              have := i.arm_abs a ha
+              show a + s.iv = s.t0 + (s.cnt + 1) * s.iv
+              rw [Nat.succ_mul]; omega
           · intro _; simpa using hd
       · cases h
   | resumeFire =>
@@ -171,7 +192,7 @@ theorem step_inv (c : Cfg) (s : T) (op : Op) (r : T × List Obs) (i : Inv c s) (
       split at h
       · injection h with h; subst h
         apply doStart_inv
-        exact ⟨⟨fun _ => rfl, fun r hr => by simp at hr, i.arm_ge, i.run_armed⟩, i.run_notdone⟩
+        exact ⟨⟨fun _ => rfl, fun r hr => by simp at hr, i.arm_ge, i.run_armed, i.arm_abs⟩, i.run_notdone⟩
       · cases h
 
 /-- what the events of one call say: `complete` only at/past the end value; a `tick` event only from a timer that is
@@ -238,6 +259,7 @@ theorem step_facts (c : Cfg) (s : T) (op : Op) (r : T × List Obs) (i : Inv c s)
   cases op with
   | start => simp only [step] at h; injection h with h; subst h; exact doStart_facts c s
   | stop => simp only [step] at h; injection h with h; subst h; exact ⟨by simp [doStop], by simp [doStop]⟩
+  | removed => simp only [step] at h; injection h with h; subst h; exact ⟨by simp [doStop], by simp [doStop]⟩
   | pause ms => simp only [step] at h; injection h with h; subst h; exact ⟨by simp, by simp⟩
   | add v =>
     simp only [step] at h; injection h with h; subst h
@@ -284,6 +306,7 @@ theorem step_facts (c : Cfg) (s : T) (op : Op) (r : T × List Obs) (i : Inv c s)
     split at h
     · injection h with h; subst h; exact ⟨by simp, by simp⟩
     · cases h
+  | stall d => simp only [step] at h; injection h with h; subst h; exact ⟨by simp, by simp⟩
   | clock =>
     simp only [step] at h
     cases ha : s.arm with
@@ -333,5 +356,85 @@ theorem run_inv (c : Cfg) (ops : List Op) : ∀ (s : T) (r : T × List Obs), Inv
     intro s r i h
     obtain ⟨r1, r2, h1, h2, rfl⟩ := run_cons h
     exact ih r1.1 r2 (step_inv c s op r1 i h1) h2
+
+/-! ## the ghost `slack`: only `stall` raises it, `to` (the loop idle) resets it -/
+
+theorem doComplete_slack (c : Cfg) (s : T) : (doComplete c s).1.slack = s.slack := by
+  by_cases hr : c.roc = true
+  · by_cases hd : done c (clip c c.start) = true <;> simp [doComplete, hr, hd, doStop]
+  · simp [doComplete, hr, doStop]
+
+theorem checkDone_slack (c : Cfg) (s : T) : (checkDone c s).1.slack = s.slack := by
+  unfold checkDone
+  split
+  · exact doComplete_slack c s
+  · rfl
+
+theorem doStart_slack (c : Cfg) (s : T) : (doStart c s).1.slack = s.slack := by
+  unfold doStart
+  split
+  · rfl
+  · split
+    · exact doComplete_slack c s
+    · rfl
+
+theorem step_slack (c : Cfg) (s : T) (op : Op) (r : T × List Obs) (h : step c s op = some r)
+    (hn : ∀ d, op ≠ .stall d) : r.1.slack ≤ s.slack := by
+  cases op with
+  | start => simp only [step] at h; injection h with h; subst h; rw [doStart_slack]; exact Nat.le_refl _
+  | stop => simp only [step] at h; injection h with h; subst h; exact Nat.le_refl _
+  | removed => simp only [step] at h; injection h with h; subst h; exact Nat.le_refl _
+  | pause ms => simp only [step] at h; injection h with h; subst h; exact Nat.le_refl _
+  | add v => simp only [step] at h; injection h with h; subst h; simp only; rw [checkDone_slack]; exact Nat.le_refl _
+  | sub v => simp only [step] at h; injection h with h; subst h; simp only; rw [checkDone_slack]; exact Nat.le_refl _
+  | jump v => simp only [step, doJump] at h; injection h with h; subst h; rw [checkDone_slack]; exact Nat.le_refl _
+  | reset => simp only [step, doJump] at h; injection h with h; subst h; rw [checkDone_slack]; exact Nat.le_refl _
+  | restart =>
+    simp only [step] at h
+    have hj : (doJump c s c.start).1.slack = s.slack := by simp only [doJump]; rw [checkDone_slack]
+    split at h
+    · split at h
+      · injection h with h; subst h; simp only; rw [doComplete_slack, hj]; exact Nat.le_refl _
+      · injection h with h; subst h; simp only; rw [hj]; exact Nat.le_refl _
+    · injection h with h; subst h; simp only; rw [doStart_slack, hj]; exact Nat.le_refl _
+  | setIv k => simp only [step] at h; injection h with h; subst h; exact Nat.le_refl _
+  | chIv f => simp only [step] at h; injection h with h; subst h; exact Nat.le_refl _
+  | to t =>
+    simp only [step] at h
+    split at h
+    · injection h with h; subst h; exact Nat.zero_le _
+    · cases h
+  | stall d => exact absurd rfl (hn d)
+  | clock =>
+    simp only [step] at h
+    cases ha : s.arm with
+    | none => simp [ha] at h
+    | some a =>
+      simp only [ha] at h
+      split at h
+      · split at h
+        · injection h with h; subst h; rw [doComplete_slack]; exact Nat.le_refl _
+        · injection h with h; subst h; exact Nat.le_refl _
+      · cases h
+  | resumeFire =>
+    simp only [step] at h
+    cases hr : s.resume with
+    | none => simp [hr] at h
+    | some r =>
+      simp only [hr] at h
+      split at h
+      · injection h with h; subst h; rw [doStart_slack]; exact Nat.le_refl _
+      · cases h
+
+/-- a run in which nothing ever blocks the loop has no slack: every delivery in it is exact -/
+theorem run_noStall_slack (c : Cfg) (ops : List Op) : ∀ (s : T) (r : T × List Obs), s.slack = 0 →
+    (∀ op ∈ ops, ∀ d, op ≠ .stall d) → run c s ops = some r → r.1.slack = 0 := by
+  induction ops with
+  | nil => intro s r hs _ h; simp [run] at h; subst h; exact hs
+  | cons op ops ih =>
+    intro s r hs hn h
+    obtain ⟨r1, r2, h1, h2, rfl⟩ := run_cons h
+    have := step_slack c s op r1 h1 (hn op (by simp))
+    exact ih r1.1 r2 (by omega) (fun o ho => hn o (by simp [ho])) h2
 
 end MpfVerif.TimerDevice
